@@ -291,6 +291,24 @@ def round_trip(vtf: VTF, sheet_ver: int, fill: str, given: dict, variant: str, w
     return rec
 
 
+def variant_record(path: list, case_seed: int, variant: str, with_pix: bool, src: str) -> dict:
+    """asis: the texture as constructed; adj: with the declared mipmap count equal to its levels;
+    regen: the adj file read back, clear_mipmaps() called, saved again - every level below the
+    first must then be the average chain of the (already quantised) first level."""
+    vtf, ver, fill, given = build(path, case_seed)
+    if variant != 'regen':
+        return round_trip(vtf, ver, fill, given, variant, with_pix, src)
+    vtf.mipmap_count = len({m for (_, _, m) in vtf._frames})
+    buf = io.BytesIO()
+    vtf.save(buf, sheet_seq_version=ver)
+    buf.seek(0)
+    back = VTF.read(buf)
+    back.load()
+    back.clear_mipmaps()
+    given2 = {(f, slice_index(s), m): bytes(fr._data) for (f, s, m), fr in back._frames.items() if m == 0}
+    return round_trip(back, ver, 'l0', given2, 'regen', with_pix, src)
+
+
 def strip(v: dict) -> dict:
     """The model state without what only the driver knows (resource payloads)."""
     c = dict(v)
@@ -333,9 +351,9 @@ def replay_edges(edge_file: str, mode: str, out: hlib.RecWriter, stats: dict) ->
             stats['access'] = stats.get('access', 0) + 1
         elif op == 'save':
             path = paths[key(e['s'])]
-            for variant in ('asis', 'adj'):
-                vtf, ver, fill, given = build(path, case_seed)
-                rec = round_trip(vtf, ver, fill, given, variant, mode == 'pix', 'edge')
+            fill0 = path[0]['fill']
+            for variant in ('asis', 'adj') + (('regen',) if mode == 'pix' and fill0 != 'l0' else ()):
+                rec = variant_record(path, case_seed, variant, mode == 'pix', 'edge')
                 rec['hist'] = path
                 rec['seed'] = case_seed
                 rec['mode'] = mode
@@ -467,10 +485,9 @@ def random_cases(out: hlib.RecWriter, rng: random.Random, n_cases: int, stats: d
         if rng.random() < 0.3:
             path.append({'op': 'sheet', 'ver': rng.choice([0, 1]), 'seqs': [rng.choice([0, 1, 2, 5]) for _ in range(rng.randint(1, 8))]})
         seed = rng.getrandbits(40)
-        vtf, ver, fill, given = build(path, seed)
-        variant = 'adj' if rng.random() < 0.8 else 'asis'
+        variant = rng.choice(['adj'] * 6 + ['asis'] * 2 + ['regen'] * 2)
         with_pix = w * h * a['frames'] * (7 if lay == 'cube' else DEPTH_OF[lay]) <= 256
-        rec = round_trip(vtf, ver, fill, given, variant, with_pix, 'random')
+        rec = variant_record(path, seed, variant, with_pix, 'random')
         rec['hist'] = path
         rec['seed'] = seed
         rec['mode'] = 'pix' if with_pix else 'layout'
@@ -495,17 +512,18 @@ def main() -> None:
         rec = rp['record']
         out = hlib.RecWriter(sys.argv[3])
         if rec['k'] == 'rt':
-            vtf, ver, fill, given = build(rec['hist'], rec['seed'])
-            out.write(round_trip(vtf, ver, fill, given, rec['variant'], rec.get('mode') == 'pix', 'replay'))
+            out.write(variant_record(rec['hist'], rec['seed'], rec['variant'], rec.get('mode') == 'pix', 'replay'))
         elif rec['k'] == 'access':
             out.write(access_record(rec['hist'], rec['seed'], rec['op'], rec['x'], rec['y']))
         elif rec['k'] == 'ctor':
             a = rec['hist'][0]
             vtf = make_vtf(a, random.Random(rec['seed']))
-            out.write({'k': 'ctor', 'c': rec['c'], 'keys': proj_keys(vtf, False), 'mip': vtf.mipmap_count, 'sig': rec['sig']})
+            out.write({'k': 'ctor', 'c': rec['c'], 'keys': proj_keys(vtf, False), 'mip': vtf.mipmap_count,
+                       'sig': {'kind': 'ctor', 'action': 'create', 'src': 'replay'}})
         else:
             c = rec['c']
             new = dict(rec)
+            new['sig'] = {'kind': 'synth', 'action': 'read', 'fmt': c['fmt'], 'src': 'replay', 'minor': c['minor']}
             try:
                 data = synth_file(c)
                 back = VTF.read(io.BytesIO(data))
